@@ -60,10 +60,14 @@ theorem fact_signature_verifier :
     Facts.C06.sigVerifierConds = ["transaction.SigningKey() != nil", "err != nil", "err != nil"] ∧
     Facts.C06.keyResolverConds = ["err == nil", "err != resolver.ErrNotFound", "err != nil", "err != nil", "vm == nil"] := by decide
 
-/-- `state.Add` = one read transaction, then one write transaction under the write lock whose first statement
-    is the presence re-check; inside: payload hash check, writePayload, saveEvent, graph.add, saveEvent, updateState -/
+/-- `state.Add` = one read transaction, then — only AFTER it — `addMutex` and one write transaction under the write lock
+    whose first statement is the presence re-check. The mutex makes write + rollback handler one critical section, it does
+    NOT cover the read transaction: two Adds of the same transaction can both pass phase 1 before either writes, so the
+    re-check is not redundant (dropping it is not an equivalent mutant: schedule [0,1,0,1] stores/counts/digests the ref twice;
+    `concurrent_adds_serialise` is proved for exactly this step structure, and the schedule explorer parks threads before and
+    right after the read transaction, never while they hold the mutex); inside: payload hash check, writePayload, saveEvent, graph.add, saveEvent, updateState -/
 theorem fact_add_two_phases :
-    Facts.C06.addPhases = ["s.db.Read", "s.db.Write"] ∧
+    Facts.C06.addPhases = ["s.db.Read", "s.addMutex.Lock", "s.db.Write"] ∧
     Facts.C06.addWriteFirst = ["s.graph.isPresent(tx, transaction.Ref()) -> return nil"] ∧
     "stoabs.WithWriteLock" ∈ Facts.C06.addWriteOpts ∧ "stoabs.OnRollback" ∈ Facts.C06.addWriteOpts ∧
     Facts.C06.addWriteCalls = ["s.graph.isPresent", "hash.SHA256Sum", "s.payloadStore.writePayload", "s.saveEvent",
